@@ -6,8 +6,10 @@ import (
 	"fmt"
 	"math/big"
 	"sort"
+	"strings"
 	"time"
 
+	"github.com/zenon-network/go-zenon/chain"
 	"github.com/zenon-network/go-zenon/chain/nom"
 	"github.com/zenon-network/go-zenon/common/types"
 	"github.com/zenon-network/go-zenon/vm/embedded/definition"
@@ -96,4 +98,10 @@ func wlAmount(t chooser) *big.Int {
 func wlAmountQsr() *big.Int { return big.NewInt(20 * 100000000) }
 func fuseData(beneficiary types.Address) []byte {
 	return definition.ABIPlasma.PackMethodPanic(definition.FuseMethodName, beneficiary)
+}
+
+// poolPriorityRefusal: the block is valid but the receiving pool already holds a sibling of the same
+// account and height that wins the priority rule (two reorganised nodes may hold different valid siblings).
+func poolPriorityRefusal(err error) bool {
+	return err != nil && (strings.Contains(err.Error(), chain.ErrHashTieBreak.Error()) || strings.Contains(err.Error(), chain.ErrPlasmaRatioIsWorse.Error()))
 }
